@@ -49,6 +49,12 @@ CHECKS = {
    note="Trusted: TLC, the driver's backend-side log as the negative oracle. The http_proxy / socks5 / static_file client plugins and the dashboard / admin web APIs are not driven by this check; timing side channels are out of scope.",
    technique="TLA+ spec Routes + trace validation of real reverse-proxy / CONNECT-muxer executions (Trace_Routes)",
    design="4 (C07), 3.5"),
+ "C08": dict(
+   level="model_checking",
+   text="The admission rule of secret proxies is one TLA+ definition (FrpsVisitors: AdmitConn / AdmitHole over the listener table with default allow list = owner's user, '*' = anyone, visitor user resolved through the run id); TLC enumerates the rule's case space; scripted owners and visitors drive a real frps over all combinations of visitor identity (own / other / no user, empty / unknown run id), signature (valid, wrong, empty, stale-but-valid), pre-check flag, allow list and visitor encryption/compression flags, and TLC checks on every recorded request that the answer equals the rule, that nothing refused reached the owner, that admitted streams arrive intact, and that the visitor / NAT-hole tables hold no residue (Trace_FrpsVisitors).",
+   note="Trusted: TLC, owner-side observation (StartWorkConn / NatHoleSid received, payload compared). sudp shares the stcp path; NAT-hole timeout shortened to 1 s through the package variable.",
+   technique="TLA+ spec FrpsVisitors (admission rule) + trace validation of real frps executions (Trace_FrpsVisitors)",
+   design="4 (C08), 3.6"),
 }
 
 hooks_commits = subprocess.run("git -C /repo log --format=%h --grep='^verif:' --reverse", shell=True, capture_output=True, text=True).stdout.split()
